@@ -77,9 +77,10 @@ def encoding_table(kind, name, space_json, rep):
     return table
 
 
-def conv_record(rec_id, kind, name, space_json, st_json, rep=None, gym_space=None, table=None):
+def conv_record(rec_id, kind, name, space_json, st_json, rep=None, gym_space=None, table=None, declared=None):
     rep = rep or make_rep(kind, name, space_json)
-    sp = rep.space
+    # `declared`: the spaces the representation advertised when it was built (what a user would have kept)
+    sp = declared if declared is not None else rep.space
     gym_space = gym_space or outer_space_to_gym_space(sp)
     obj = proj.state_from_json(st_json) if kind == 'state' else proj.obs_from_json(st_json)
     rec = {'id': rec_id, 'kind': 'conv', 'kind_': kind, 'name': name, 'space': space_json, 'st': st_json, 'outcome': 'ok',
@@ -115,6 +116,25 @@ def pair_record(rec_id, kind, name, space_json, st1, st2, rep=None):
             'conv1': {k: tolist(v) if k != 'agent' else [round(float(x) * 1e6) for x in v] for k, v in ca.items()},
             'conv2': {k: tolist(v) if k != 'agent' else [round(float(x) * 1e6) for x in v] for k, v in cb.items()},
             'pyeq': bool(a == b), 'hasheq': hash(a.grid) == hash(b.grid) and hash(a.agent) == hash(b.agent)}
+
+
+def pairhist_record(rec_id, kind, name, space_json, st1, st2=None, rep=None):
+    """st1 = a state with a closed door in front of the agent; its hash is taken, the door is opened by the real
+    actuate_door on a copy (transition_with_copy), and the result is compared with a freshly built equal state"""
+    from gym_gridverse.action import Action
+    from gym_gridverse.envs.transition_functions import factory as tf_factory, transition_with_copy
+    rep = rep or make_rep(kind, name, space_json)
+    s0 = proj.state_from_json(st1)
+    hash(s0.grid), hash(s0.agent)
+    s1 = transition_with_copy(tf_factory('actuate_door'), s0, Action.ACTUATE)
+    hash(s1.grid), hash(s1.agent)
+    s1j = proj.state_to_json(s1)
+    fresh = proj.state_from_json(s1j)
+    ca, cb = rep.convert(s1), rep.convert(fresh)
+    return {'id': rec_id, 'kind': 'pair', 'kind_': kind, 'name': name, 'space': space_json, 'st1': s1j, 'st2': proj.state_to_json(fresh),
+            'conv1': {k: tolist(v) if k != 'agent' else [round(float(x) * 1e6) for x in v] for k, v in ca.items()},
+            'conv2': {k: tolist(v) if k != 'agent' else [round(float(x) * 1e6) for x in v] for k, v in cb.items()},
+            'pyeq': bool(s1 == fresh), 'hasheq': hash(s1.grid) == hash(fresh.grid) and hash(s1.agent) == hash(fresh.agent)}
 
 
 def random_member(rng, kind, space_json, cell_objs=None, item_objs=None):
@@ -180,6 +200,7 @@ def _worker(args):
     path, jobs = args
     reset_gv_debug(True)
     cache = {}
+    late = {}
     n = 0
     distinct = set()
     with open(path, 'w') as f:
@@ -189,15 +210,29 @@ def _worker(args):
             if kind != 'space':
                 if key not in cache:
                     rep = make_rep(job['kind'], job['name'], job['space_json'])
-                    cache[key] = (rep, outer_space_to_gym_space(rep.space), encoding_table(job['kind'], job['name'], job['space_json'], rep))
-                rep, gs, tab = cache[key]
+                    declared = rep.space
+                    cache[key] = (rep, outer_space_to_gym_space(declared), encoding_table(job['kind'], job['name'], job['space_json'], rep), declared)
+                rep, gs, tab, declared = cache[key]
             if kind == 'space':
                 rec = space_record(**job)
             elif kind == 'conv':
-                rec = conv_record(rep=rep, gym_space=gs, table=tab, **job)
+                rec = conv_record(rep=rep, gym_space=gs, table=tab, declared=declared, **job)
                 distinct.add(hash(json.dumps(rec['conv'], sort_keys=True)))
+                if key not in late and len(late) < 150:
+                    late[key] = dict(job)
+            elif kind == 'pairhist':
+                rec = pairhist_record(rep=rep, **job)
             else:
                 rec = pair_record(rep=rep, **job)
+            f.write(json.dumps(rec, separators=(',', ':')) + '\n')
+            n += 1
+        # late conversions: the first member of (up to 150) representations is converted again after all the other
+        # representations of this worker were built, against the spaces advertised at construction time
+        for k2, (key, job) in enumerate(late.items()):
+            rep, gs, tab, declared = cache[key]
+            job = dict(job, rec_id=2_000_000_000 - 1 - (hash(path) % 1000) * 1000 - k2)
+            rec = conv_record(rep=rep, gym_space=gs, table=tab, declared=declared, **job)
+            rec['late'] = True
             f.write(json.dumps(rec, separators=(',', ':')) + '\n')
             n += 1
     return n, len(distinct)
